@@ -446,9 +446,15 @@ pub fn hostile_quoted_sentence(rng: &mut Rng) -> String {
 /// crash the lexer while it words its complaint.
 pub fn long_token_case(rng: &mut Rng) -> String {
     let around = [16usize, 32, 64, 80, 100, 128, 160, 200, 255, 256, 512, 1024, 4096][rng.below(13)];
-    let n = (around + rng.below(9)).saturating_sub(6);
+    // half of the cases: any length below 300 (every byte offset is met by a multi-byte character sooner or later)
+    let n = if rng.chance(1, 2) { rng.below(300) } else { (around + rng.below(9)).saturating_sub(6) };
     let filler: String = (0..n).map(|i| [b'a', b'x', b'0', b' '][if rng.chance(1, 9) { 3 } else { i % 3 }] as char).collect();
-    let wide: String = (0..1 + rng.below(4)).map(|_| ["é", "日", "\u{1F600}", "ÿ", "\u{10FFFF}"][rng.below(5)]).collect();
+    let wide: String = if rng.chance(1, 3) {
+        // a run of one multi-byte character: some byte offset in the window falls inside a character whatever the cut
+        ["é", "я", "日", "\u{1F600}"][rng.below(4)].repeat(2 + rng.below(40))
+    } else {
+        (0..1 + rng.below(4)).map(|_| ["é", "日", "\u{1F600}", "ÿ", "\u{10FFFF}"][rng.below(5)]).collect()
+    };
     let tail = ["", "", "\\x", "\\", "\u{1}", ", oops]", "\\u12", "\\ud800", "\"", "'", "`", "\\'", "\n"][rng.below(13)];
     let body = format!("{}{}{}{}", filler, wide, tail, if rng.chance(1, 2) { "zz" } else { "" });
     let tok = match rng.below(8) {
@@ -487,6 +493,106 @@ pub fn lookalike_case(rng: &mut Rng) -> String {
         "a {b}.b", "a\n{b}b", "[a, {b}b]", "{b}abs(a)", "abs{b}(a)", "abs({b}a)", "abs(a{b})", " {b} abs(a)", "a |\t{b}abs(b)",
     ][rng.below(43)];
     t.replace("{d}", d).replace("{l}", l).replace("{b}", b)
+}
+
+/// One ASCII character of `text` replaced by (or followed by) a character whose code point is the same
+/// modulo 256 / 65536 (U+0100·k + c, the full-width form, U+10000 + c): whatever narrows a character to a
+/// byte before comparing it meets a character that then looks like an operator, a quote or a bracket.
+pub fn truncation_twin(text: &str, rng: &mut Rng) -> Option<String> {
+    let idx: Vec<(usize, char)> = text.char_indices().filter(|(_, c)| c.is_ascii() && !c.is_ascii_control()).collect();
+    if idx.is_empty() {
+        return None;
+    }
+    // significant characters are picked more often than letters
+    let sig: Vec<(usize, char)> = idx.iter().cloned().filter(|(_, c)| !c.is_ascii_alphanumeric() && *c != ' ').collect();
+    let (at, c) = if !sig.is_empty() && rng.chance(3, 4) { sig[rng.below(sig.len())] } else { idx[rng.below(idx.len())] };
+    let add: u32 = match rng.below(8) {
+        0 => 0x100,
+        1 => 0x200,
+        2 => 0x400,
+        3 => 0x100 * (1 + rng.below(200) as u32),
+        4 => 0xFEE0,
+        5 => 0x10000,
+        6 => 0x1000 * (1 + rng.below(12) as u32),
+        _ => 0x100 * (1 + rng.below(15) as u32),
+    };
+    let twin = char::from_u32(c as u32 + add)?;
+    let mut out = String::with_capacity(text.len() + 4);
+    out.push_str(&text[..at]);
+    match rng.below(3) {
+        0 => out.push(twin),
+        1 => {
+            out.push(c);
+            out.push(twin);
+        }
+        _ => {
+            out.push(twin);
+            out.push(c);
+        }
+    }
+    out.push_str(&text[at + 1..]);
+    Some(out)
+}
+
+/// The second half of every two-character operator replaced by each of its twins (deterministic sweep).
+pub fn operator_twins() -> Vec<String> {
+    let mut out = vec![];
+    let forms: [(&str, char); 9] = [("a |{} b", '|'), ("a &{} b", '&'), ("a <{} b", '='), ("a >{} b", '='), ("a !{} b", '='), ("a ={} b", '='), ("a[{}]", ']'), ("a[{}b]", '?'), ("a[?b <{} c]", '=')];
+    for (f, c) in forms.iter() {
+        for add in [0x100u32, 0x200, 0x300, 0x400, 0x500, 0x1000, 0x2000, 0xFEE0, 0x10000, 0x20000] {
+            if let Some(t) = char::from_u32(*c as u32 + add) {
+                out.push(f.replace("{}", &t.to_string()));
+            }
+        }
+    }
+    for c in ['\'', '"', '`', '(', ')', '[', ']', '{', '}', '.', ',', ':', '*', '@', '&', '|', '!', '<', '>', '=', '-', '0', '9', 'a', '_', ' ', '\\'] {
+        for add in [0x100u32, 0x400, 0x10000] {
+            if let Some(t) = char::from_u32(c as u32 + add) {
+                for f in ["a{}b", "{}a", "a{}", "a {} b", "'x{}", "\"x{}", "`1{}", "f({})", "a[{}", "a.{}"] {
+                    out.push(f.replace("{}", &t.to_string()));
+                }
+            }
+        }
+    }
+    out
+}
+
+/// Many small expressions side by side in ONE expression: n operands of a `||` / `&&` / `|` chain, n
+/// members of a multi-select, n arguments of a call, n steps of a dotted path — n up to several hundred,
+/// around every power of two. Nothing nests more than three deep: whatever is counted per expression
+/// (groups opened so far, tokens, literals, call sites) is large while every depth is small.
+pub fn wide_case(rng: &mut Rng) -> String {
+    wide_case_upto(rng, 600)
+}
+
+pub fn wide_case_upto(rng: &mut Rng, max_n: usize) -> String {
+    const ITEMS: [&str; 24] = [
+        "(a)", "(a.b)", "(a || b)", "((a))", "f(a)", "length(a)", "`1`", "`\"s\"`", "'s'", "\"q\"", "a[0]", "a[?b]", "a[?(b)]", "[a]", "[(a)]", "{k: a}", "{k: (a)}", "!a", "!(a)", "a[1:2]", "*", "@", "a.*", "a[]",
+    ];
+    let n = [2usize, 3, 10, 50, 100, 126, 127, 128, 129, 130, 200, 255, 256, 257, 300, 600][rng.below(16)].min(max_n);
+    let uniform = rng.chance(1, 2);
+    let one = ITEMS[rng.below(ITEMS.len())];
+    let items: Vec<String> = (0..n)
+        .map(|i| {
+            let it = if uniform { one } else { ITEMS[rng.below(ITEMS.len())] };
+            // numbered names keep the members distinguishable
+            if rng.chance(1, 2) { it.replacen('a', &format!("a{}", i), 1) } else { it.to_string() }
+        })
+        .collect();
+    match rng.below(9) {
+        0 => items.join(" || "),
+        1 => items.join(" && "),
+        2 => items.join(" | "),
+        3 => format!("[{}]", items.join(", ")),
+        4 => format!("not_null({})", items.join(", ")),
+        5 => format!("{{{}}}", items.iter().enumerate().map(|(i, it)| format!("k{}: {}", i, it)).collect::<Vec<_>>().join(", ")),
+        6 => {
+            // a dotted path of n steps (each a member, a quoted member, a one-member multi-select or a group is not a step: members only)
+            (0..n).map(|i| if i % 3 == 1 { format!("\"m{}\"", i) } else { format!("m{}", i) }).collect::<Vec<_>>().join(".")
+        }
+        7 => items.iter().enumerate().map(|(i, it)| if i % 2 == 0 { format!("{} ||", it) } else { format!("{} &&", it) }).collect::<Vec<_>>().join(" ") + " z",
+        _ => format!("a[?{}]", items.join(" || ")),
+    }
 }
 
 /// Quoted identifiers, literals and raw strings made of \uXXXX escapes around the surrogate
